@@ -508,6 +508,84 @@ def check_ulp_by_binade(r, repo, rule="R14.5"):
     r.info(rule, f"utils.ulp interpreted on {n} abstract arguments (one per format, sign and binade, plus zero, infinities and NaN)")
 
 
+def check_list_branch(r, repo, rule="R14.6"):
+    """The list branch of diff_ulp (sequences of unequal length are padded with zeros, element distances added) is interpreted
+    (sa/absint.py) for all lengths 0..3 x 0..3 (not both empty) on symbolic items, the recursive scalar calls summarised as
+    D(a, b): the result must be the sum of D(x_i, y_i) over i < max(len) with the missing items replaced by zero - in particular
+    symmetric in the two lengths.  A padding computed from an already padded length (seed C14f) drops the tail of the longer
+    first argument."""
+    from sa.absint import Interp, Closure, Unsupported as IUnsupported, PyRaise
+
+    g = repo.func(REL, "diff_ulp")
+
+    class Item:
+        __absint_host__ = True
+
+        def __init__(self, name):
+            self.name = name
+
+        @property
+        def __absint_type__(self):
+            return ItemType()
+
+        def __repr__(self):
+            return self.name
+
+    class ItemType:
+        __absint_host__ = True
+
+        def __call__(self, v=0):
+            if v != 0:
+                raise IUnsupported("non-zero pad value")
+            return Item("0")
+
+    class DSum:
+        __absint_host__ = True
+
+        def __init__(self, terms=()):
+            self.terms = tuple(terms)
+
+        def __add__(self, o):
+            if isinstance(o, DSum):
+                return DSum(self.terms + o.terms)
+            if isinstance(o, int) and o == 0:
+                return self
+            return NotImplemented
+
+        __radd__ = __add__
+
+    def summary(a, b, *rest, **kw):
+        if not (isinstance(a, Item) and isinstance(b, Item)):
+            raise IUnsupported("recursive diff_ulp on a non-item")
+        # whether the options are forwarded is R14.3's subject; here only the pairing and padding are judged
+        return DSum([(a.name, b.name)])
+
+    n_cases = 0
+    bad = None
+    for m in range(0, 4):
+        for n in range(0, 4):
+            if m == 0 or n == 0:
+                continue  # type(x[0]) of an empty list: outside the function's domain
+            xs, ys = [Item(f"x{i}") for i in range(m)], [Item(f"y{i}") for i in range(n)]
+            I = Interp(repo)
+            I.globals_cache[(REL, "diff_ulp")] = summary
+            try:
+                out = I.call(Closure(g, {}, I, REL, bound_self=None), [list(xs), list(ys)], dict(flush_subnormals="FLUSH", equal_nan="EQNAN"))
+            except (IUnsupported, PyRaise, TypeError) as e:
+                raise AnalysisError(f"{REL}::diff_ulp list branch is not interpretable for lengths ({m}, {n}): {getattr(e, 'what', e)}")
+            n_cases += 1
+            k = max(m, n)
+            want = sorted((f"x{i}" if i < m else "0", f"y{i}" if i < n else "0") for i in range(k))
+            got = sorted(out.terms) if isinstance(out, DSum) else (sorted([]) if out == 0 else None)
+            if got != want and bad is None:
+                bad = (m, n, got, want)
+    r.ob(rule, f"{REL}::diff_ulp list branch sums the distances of all positions (lengths 1..3 x 1..3)", bad is None,
+         "" if bad is None else f"for sequences of lengths ({bad[0]}, {bad[1]}) the result is the sum over {bad[2]}, expected {bad[3]}: items of the longer sequence "
+         "beyond the shorter one are not compared with zero, so unequal sequences get distance 0 and the distance is not symmetric", loc(REL, g),
+         sample=dict(rule=rule, cases=n_cases))
+
+
+
 def run(repo, tier):
     r = Report("C14", tier, repo, level="other", design_ref="§3/C14")
     r.explanation = (
@@ -522,6 +600,7 @@ def run(repo, tier):
     r.trusted_base = ["Python ast"]
     r.rule("R14.2", "complex distance = max(distance of real parts, distance of imaginary parts)", floor=1)
     r.rule("R14.3", "sequence branches pair elements positionally and forward flush_subnormals and equal_nan", floor=3)
+    r.rule("R14.6", "diff_ulp on sequences: the distances of all positions up to the longer length are added, the shorter sequence padded with zeros", floor=1)
     r.rule("R14.4", "scalar branch: on every feasible path of every (class, sign) case the result equals the integer distance |pos(x) - pos(y)| on the float lattice (flushing: documented collapse map); non-finite pairs: 0 or the marker 2**bits", floor=3)
     r.rule("R14.5", "ulp(x) is the spacing of x's binade for every finite x (so the documented nextafter identities hold), smallest subnormal at 0, inf at infinities, NaN at NaN", floor=15)
 
@@ -574,4 +653,5 @@ def run(repo, tier):
     check_scalar_distance(r, repo, scalar)
     # ---- R14.5 ulp
     check_ulp_by_binade(r, repo)
+    check_list_branch(r, repo)
     return r
